@@ -553,6 +553,264 @@ theorem selectedPaths_complete (hfk : ∀ fr ∈ frags, keysL nm fr.sels = true)
         · exact Or.inl h0
         · exact Or.inr (by simp at h0; omega)
 
+/-! ### soundness: only selected fields are collected, only selected paths are listed -/
+
+theorem step_sound
+    (rec : List Sel → List String → Except Err CState)
+    (hrec : ∀ ss sn g s', rec ss sn = .ok (g, s') → ∀ f, InG g f → Reach frags vars ss f)
+    (G : Grouped) (S : List String) (s : Sel) (G1 : Grouped) (S1 : List String)
+    (h : collectStep rec frags vars (G, S) s = .ok (G1, S1)) :
+    ∀ f, InG G1 f → InG G f ∨ ReachS frags vars s f := by
+  cases s with
+  | field al n d sub =>
+    cases hsk : skipSelection d vars with
+    | error e => simp [collectStep, hsk] at h
+    | ok b =>
+      have hb := skipSelection_eq hsk
+      cases b with
+      | true =>
+        simp [collectStep, hsk] at h
+        obtain ⟨rfl, rfl⟩ := h
+        exact fun f hf => Or.inl hf
+      | false =>
+        simp [collectStep, hsk] at h
+        obtain ⟨rfl, rfl⟩ := h
+        intro f hf
+        rcases (InG_extendKey _ _ _ _).mp hf with h' | h'
+        · exact Or.inl h'
+        · simp at h'
+          subst h'
+          exact Or.inr (.field _ _ _ _ hb.symm)
+  | inline d ss =>
+    cases hsk : skipSelection d vars with
+    | error e => simp [collectStep, hsk] at h
+    | ok b =>
+      have hb := skipSelection_eq hsk
+      cases b with
+      | true =>
+        simp [collectStep, hsk] at h
+        obtain ⟨rfl, rfl⟩ := h
+        exact fun f hf => Or.inl hf
+      | false =>
+        simp only [collectStep, hsk] at h
+        cases hr : rec ss S with
+        | error e => simp [hr] at h
+        | ok r =>
+          obtain ⟨Gc, Sc⟩ := r
+          simp [hr] at h
+          obtain ⟨rfl, rfl⟩ := h
+          intro f hf
+          rcases (InG_merge _ _ _).mp hf with h' | h'
+          · exact Or.inl h'
+          · obtain ⟨s', hm, hrs⟩ := hrec ss S Gc Sc hr f h'
+            exact Or.inr (.inline _ _ s' _ hb.symm hm hrs)
+  | spread n d =>
+    cases hsk : skipSelection d vars with
+    | error e => simp [collectStep, hsk] at h
+    | ok b =>
+      have hb := skipSelection_eq hsk
+      cases b with
+      | true =>
+        simp [collectStep, hsk] at h
+        obtain ⟨rfl, rfl⟩ := h
+        exact fun f hf => Or.inl hf
+      | false =>
+        simp only [collectStep, hsk] at h
+        by_cases hcont : S.contains n = true
+        · rw [if_pos hcont] at h
+          simp at h
+          obtain ⟨rfl, rfl⟩ := h
+          exact fun f hf => Or.inl hf
+        · rw [if_neg hcont] at h
+          cases hl : lookupFrag frags n with
+          | none =>
+            simp [hl] at h
+            obtain ⟨rfl, rfl⟩ := h
+            exact fun f hf => Or.inl hf
+          | some fr =>
+            simp only [hl] at h
+            cases hr : rec fr.sels S with
+            | error e => simp [hr] at h
+            | ok r =>
+              obtain ⟨Gc, Sc⟩ := r
+              simp [hr] at h
+              obtain ⟨rfl, rfl⟩ := h
+              intro f hf
+              rcases (InG_merge _ _ _).mp hf with h' | h'
+              · exact Or.inl h'
+              · obtain ⟨s', hm, hrs⟩ := hrec fr.sels S Gc Sc hr f h'
+                exact Or.inr (.spread _ _ fr s' _ hb.symm hl hm hrs)
+
+theorem loop_sound
+    (rec : List Sel → List String → Except Err CState)
+    (hrec : ∀ ss sn g s', rec ss sn = .ok (g, s') → ∀ f, InG g f → Reach frags vars ss f) :
+    ∀ (sels : List Sel) (G : Grouped) (S : List String) (G' : Grouped) (S' : List String),
+      loopM (collectStep rec frags vars) (G, S) sels = .ok (G', S') →
+      ∀ f, InG G' f → InG G f ∨ Reach frags vars sels f := by
+  intro sels
+  induction sels with
+  | nil =>
+    intro G S G' S' h
+    simp [loopM] at h
+    obtain ⟨rfl, rfl⟩ := h
+    exact fun f hf => Or.inl hf
+  | cons s ss ih =>
+    intro G S G' S' h f hf
+    simp only [loopM] at h
+    cases hst : collectStep rec frags vars (G, S) s with
+    | error e => simp [hst] at h
+    | ok st =>
+      obtain ⟨G1, S1⟩ := st
+      simp only [hst] at h
+      rcases ih G1 S1 G' S' h f hf with h' | ⟨s', hs', hr⟩
+      · rcases step_sound frags vars rec hrec G S s G1 S1 hst f h' with h'' | h''
+        · exact Or.inl h''
+        · exact Or.inr ⟨s, by simp, h''⟩
+      · exact Or.inr ⟨s', by simp [hs'], hr⟩
+
+theorem collect_sound :
+    ∀ (k : Nat) (sels : List Sel) (seen : List String) (G : Grouped) (S' : List String),
+      collectFieldsUntyped k sels frags vars seen = .ok (G, S') → ∀ f, InG G f → Reach frags vars sels f := by
+  intro k
+  induction k with
+  | zero => intro sels seen G S' h; simp [collectFieldsUntyped] at h
+  | succ k ih =>
+    intro sels seen G S' h f hf
+    have hun : collectFieldsUntyped (k + 1) sels frags vars seen =
+        loopM (collectStep (fun ss sn => collectFieldsUntyped k ss frags vars sn) frags vars) ([], seen) sels := rfl
+    rw [hun] at h
+    rcases loop_sound frags vars _ (fun ss sn g s' hr => ih ss sn g s' hr) sels [] seen G S' h f hf with h' | h'
+    · obtain ⟨kv, hkv, _⟩ := h'; cases hkv
+    · exact h'
+
+/-- every listed path extends the prefix by a selected path, within `maxdepth`, matching the pattern -/
+def PathsSound (md : Nat) (pat : List String → Bool) (ss : List Sel) (path : List String) (out : List (List String)) : Prop :=
+  ∀ x ∈ out, ∃ p, x = path ++ p ∧ IsPath frags vars ss p ∧ (md = 0 ∨ x.length ≤ md) ∧ pat x = true
+
+theorem IsPath_flatMap_sub {fs : List Fld} {p : List String}
+    (h : IsPath frags vars (fs.flatMap (·.sub)) p) : ∃ f ∈ fs, IsPath frags vars f.sub p := by
+  have key : ∀ g, Reach frags vars (fs.flatMap (·.sub)) g → ∃ f ∈ fs, Reach frags vars f.sub g := by
+    rintro g ⟨s, hs, hr⟩
+    obtain ⟨f, hf, hsf⟩ := List.mem_flatMap.mp hs
+    exact ⟨f, hf, s, hsf, hr⟩
+  cases h with
+  | leaf hr => obtain ⟨f, hf, hr'⟩ := key _ hr; exact ⟨f, hf, .leaf hr'⟩
+  | step hr hs => obtain ⟨f, hf, hr'⟩ := key _ hr; exact ⟨f, hf, .step hr' hs⟩
+
+theorem pathsLoop_sound (md : Nat) (pat : List String → Bool) (path : List String) (sels : List Sel)
+    (hpre : md = 0 ∨ path.length < md)
+    (rec : List Sel → List String → Except Err (List (List String)))
+    (hrec : ∀ ss q out, rec ss q = .ok out → keysL nm ss = true → (md = 0 ∨ q.length < md) →
+      PathsSound frags vars md pat ss q out) :
+    ∀ (G : Grouped) (acc out : List (List String)), pathsLoop rec md pat path acc G = .ok out → GOk nm G →
+      (∀ f, InG G f → Reach frags vars sels f) →
+      ∀ x ∈ out, x ∈ acc ∨
+        ∃ p, x = path ++ p ∧ IsPath frags vars sels p ∧ (md = 0 ∨ x.length ≤ md) ∧ pat x = true := by
+  intro G
+  induction G with
+  | nil =>
+    intro acc out h _ _ x hx
+    simp [pathsLoop] at h
+    subst h
+    exact Or.inl hx
+  | cons kv rest ih =>
+    intro acc out h hg hG x hx
+    obtain ⟨k, fields⟩ := kv
+    have hhead := hg (k, fields) (by simp)
+    have hrest : GOk nm rest := fun kv h => hg kv (by simp [h])
+    have hGrest : ∀ f, InG rest f → Reach frags vars sels f := by
+      rintro f ⟨kv, hkv, hf⟩
+      exact hG f ⟨kv, by simp [hkv], hf⟩
+    cases fields with
+    | nil => simp [pathsLoop] at h
+    | cons child more =>
+      have hchild := hhead child (by simp)
+      have hreach : ∀ f ∈ child :: more, Reach frags vars sels f := fun f hf => hG f ⟨(k, child :: more), by simp, hf⟩
+      have hname : ∀ f ∈ child :: more, f.name = child.name := by
+        intro f hf
+        have := hhead f hf
+        rw [← this.2.1, ← hchild.2.1]
+      have hun : pathsLoop rec md pat path acc ((k, child :: more) :: rest) =
+          (if descend md path.length = true then
+            match rec ((child :: more).flatMap (·.sub)) (path ++ [child.name]) with
+            | .error e => .error e
+            | .ok sub => pathsLoop rec md pat path
+                ((if pat (path ++ [child.name]) = true then acc ++ [path ++ [child.name]] else acc) ++ sub) rest
+          else pathsLoop rec md pat path
+                (if pat (path ++ [child.name]) = true then acc ++ [path ++ [child.name]] else acc) rest) := rfl
+      rw [hun] at h
+      -- what may be in the accumulator after listing the child
+      have hacc1 : ∀ y ∈ (if pat (path ++ [child.name]) = true then acc ++ [path ++ [child.name]] else acc),
+          y ∈ acc ∨ ∃ p, y = path ++ p ∧ IsPath frags vars sels p ∧ (md = 0 ∨ y.length ≤ md) ∧ pat y = true := by
+        intro y hy
+        split at hy
+        · rename_i hp
+          simp at hy
+          rcases hy with hy | hy
+          · exact Or.inl hy
+          · subst hy
+            refine Or.inr ⟨[child.name], rfl, .leaf (hreach child (by simp)), ?_, hp⟩
+            rcases hpre with h0 | h0
+            · exact Or.inl h0
+            · exact Or.inr (by simp; omega)
+        · exact Or.inl hy
+      by_cases hd : descend md path.length = true
+      · rw [if_pos hd] at h
+        cases hr : rec ((child :: more).flatMap (·.sub)) (path ++ [child.name]) with
+        | error e => rw [hr] at h; cases h
+        | ok sub =>
+          rw [hr] at h
+          replace h : pathsLoop rec md pat path
+              ((if pat (path ++ [child.name]) = true then acc ++ [path ++ [child.name]] else acc) ++ sub) rest = .ok out := h
+          have hpre' : md = 0 ∨ (path ++ [child.name]).length < md := by
+            simp [descend] at hd
+            rcases hd with h0 | h0
+            · exact Or.inl h0
+            · exact Or.inr (by simp; omega)
+          have hsub := hrec _ _ _ hr (keysL_flatMap_sub nm k (child :: more) hhead) hpre'
+          rcases ih _ out h hrest hGrest x hx with h' | h'
+          · simp only [List.mem_append] at h'
+            rcases h' with h'' | h''
+            · exact hacc1 x h''
+            · obtain ⟨p', hxe, hp', hb, hpat⟩ := hsub x h''
+              obtain ⟨f, hf, hpf⟩ := IsPath_flatMap_sub frags vars hp'
+              refine Or.inr ⟨child.name :: p', by simp [hxe], ?_, hb, hpat⟩
+              rw [← hname f hf]
+              exact .step (hreach f hf) hpf
+          · exact Or.inr h'
+      · rw [if_neg hd] at h
+        rcases ih _ out h hrest hGrest x hx with h' | h'
+        · exact hacc1 x h'
+        · exact Or.inr h'
+
+theorem selectedPaths_sound (hfk : ∀ fr ∈ frags, keysL nm fr.sels = true) (md : Nat) (pat : List String → Bool) :
+    ∀ (k : Nat) (sels : List Sel) (path : List String) (out : List (List String)),
+      selectedPaths k sels frags vars md pat path = .ok out → keysL nm sels = true →
+      (md = 0 ∨ path.length < md) → PathsSound frags vars md pat sels path out := by
+  intro k
+  induction k with
+  | zero => intro sels path out h; simp [selectedPaths] at h
+  | succ k ih =>
+    intro sels path out h hk hpre
+    have hun : selectedPaths (k + 1) sels frags vars md pat path =
+        (match collectFieldsUntyped (k + 1) sels frags vars [] with
+         | .error e => .error e
+         | .ok (collected, _) =>
+           pathsLoop (fun s p => selectedPaths k s frags vars md pat p) md pat path [] collected) := rfl
+    rw [hun] at h
+    cases hc : collectFieldsUntyped (k + 1) sels frags vars [] with
+    | error e => simp [hc] at h
+    | ok r =>
+      obtain ⟨G, S'⟩ := r
+      simp only [hc] at h
+      obtain ⟨_, _, c3⟩ := collect_mem frags vars nm hfk (k + 1) sels [] G S' hc hk
+      have hG := collect_sound frags vars (k + 1) sels [] G S' hc
+      intro x hx
+      rcases pathsLoop_sound frags vars nm md pat path sels hpre _
+        (fun ss q o hr hkk hq => ih ss q o hr hkk hq) G [] out h c3 hG x hx with h' | h'
+      · cases h'
+      · exact h'
+
 end
 
 end PyGql.Depth.Lemmas
